@@ -162,6 +162,29 @@ fn emit(s: &mut State, task: u64, ev: &'static str, lock: &'static str, mode: ch
     });
 }
 
+/// Fault injection (scheduled mode): tasks that panic when they are next released from a parking
+/// point, i.e. inside the handler code that was about to request a lock.
+static INJECTED_PANICS: StdMutex<Vec<u64>> = StdMutex::new(Vec::new());
+
+/// Make `task` (currently parked) panic as soon as it is released.
+pub fn inject_panic(task: u64) {
+    INJECTED_PANICS
+        .lock()
+        .unwrap_or_else(|e| e.into_inner())
+        .push(task);
+}
+
+fn take_injected_panic(task: u64) -> bool {
+    let mut g = INJECTED_PANICS.lock().unwrap_or_else(|e| e.into_inner());
+    match g.iter().position(|t| *t == task) {
+        Some(i) => {
+            g.remove(i);
+            true
+        }
+        None => false,
+    }
+}
+
 async fn gate(lock: &'static str, mode: char) -> u64 {
     let task = current_task();
     let notify = with_state(|s| {
@@ -175,6 +198,9 @@ async fn gate(lock: &'static str, mode: char) -> u64 {
     });
     if let Some(n) = notify {
         n.notified().await;
+        if take_injected_panic(task) {
+            panic!("verif: injected panic in task {task} before {lock}.{mode}");
+        }
     }
     with_state(|s| emit(s, task, "req", lock, mode));
     task
